@@ -310,6 +310,34 @@ def method_effect(m, field):
     return None
 
 
+def also_effects(m, field, passed):
+    """secondary effects of a bool-param method when called with `passed` (True/False): [(other_field, bool)]"""
+    out = []
+    if len(m["params"]) != 1 or m["params"][0][1] != "bool":
+        return out if len(m["touches"]) <= 1 else None
+    pn = re.escape(m["params"][0][0].replace("mut ", "").strip())
+    b = m["body"]
+    rest = b
+    for g in m["touches"]:
+        if g == field:
+            continue
+        gg = re.escape(g)
+        pos = re.search(r"if %s \{ self \. options \. %s = (?:%s|true) ; \}" % (pn, gg, pn), b)
+        neg = re.search(r"if ! %s \{ self \. options \. %s = (?:%s|false) ; \}" % (pn, gg, pn), b)
+        unc = re.search(r"(?<!\{ )self \. options \. %s = %s ;" % (gg, pn), b)
+        if unc and not pos and not neg:
+            out.append((g, bool(passed)))
+        elif pos:
+            if passed:
+                out.append((g, True))
+        elif neg:
+            if not passed:
+                out.append((g, False))
+        else:
+            return None
+    return out
+
+
 def build_tables(fields, cli, applies):
     """simple print rows, clap rows, and the list of everything left out (with the reason)"""
     fid = {f["name"]: i for i, f in enumerate(fields)}
@@ -369,13 +397,13 @@ def build_tables(fields, cli, applies):
         eff = method_effect(m, f["name"])
         if ap["form"] == "manual_some":
             if eff == "optparam" and ar == "COpt":
-                crows.append(("--" + c["long"], ar, fid[f["name"]], "SetSome", c["name"]))
+                crows.append(("--" + c["long"], ar, fid[f["name"]], "SetSome", c["name"], []))
             else:
                 cskipped.append((c["name"], "manual Some-arm with effect %r" % eff))
             continue
         if ap["form"] == "manual_flag":
             if eff and eff.startswith("const ") and ar == "CBool":
-                crows.append(("--" + c["long"], ar, fid[f["name"]], "SetBool %s" % eff.split()[1], c["name"]))
+                crows.append(("--" + c["long"], ar, fid[f["name"]], "SetBool %s" % eff.split()[1], c["name"], []))
             else:
                 cskipped.append((c["name"], "manual flag-arm with effect %r" % eff))
             continue
@@ -400,7 +428,17 @@ def build_tables(fields, cli, applies):
             else:
                 cskipped.append((c["name"], "method %s effect %r arity %s" % (ap["method"], eff, ar)))
                 continue
-        crows.append(("--" + c["long"], ar, fid[f["name"]], effect, c["name"]))
+        also = []
+        if effect.startswith("SetBool"):
+            a = also_effects(m, f["name"], effect.endswith("true"))
+            if a is None:
+                cskipped.append((c["name"], "method %s has secondary effects the translator cannot read" % m["name"]))
+                continue
+            also = [(fid[g], v) for g, v in a]
+        elif len(m["touches"]) > 1:
+            cskipped.append((c["name"], "method %s touches several fields %s" % (m["name"], m["touches"])))
+            continue
+        crows.append(("--" + c["long"], ar, fid[f["name"]], effect, c["name"], also))
     return prows, crows, skipped, cskipped
 
 
@@ -418,7 +456,8 @@ def main(repo, out=None):
         s += "Definition prows : list prow := [\n%s\n].\n\n" % ";\n".join(
             "  {| p_field := %d; p_kind := %s; p_flag := %s |} (* %s %s *)" % (fi, k, coq_bytes(fl), nm, fl) for fi, k, fl, nm in prows)
         s += "Definition crows : list crow := [\n%s\n].\n" % ";\n".join(
-            "  {| c_long := %s; c_arity := %s; c_field := %d; c_effect := %s |} (* %s %s *)" % (coq_bytes(l), ar, fi, ef, nm, l) for l, ar, fi, ef, nm in crows)
+            "  {| c_long := %s; c_arity := %s; c_field := %d; c_effect := %s; c_also := [%s] |} (* %s %s *)" % (
+                coq_bytes(l), ar, fi, ef, "; ".join("(%d, %s)" % (g, "true" if v else "false") for g, v in also), nm, l) for l, ar, fi, ef, nm, also in crows)
         if not os.path.exists(out) or open(out).read() != s:
             open(out, "w").write(s)
     return {"fields": fields, "cli": cli, "applies": applies, "prows": prows, "crows": crows, "skipped": skipped, "cskipped": cskipped}
@@ -439,3 +478,87 @@ if __name__ == "__main__":
     print([a["name"] for a in cli if a["name"] not in applies])
     print({k: v for k, v in applies.items() if v["form"] == "other"})
     print(Counter((a["type"].split("<")[0]) for a in cli))
+
+
+# ---------------------------------------------------------------- harness code generation
+ENUM_PARSE = {"EnumVariation", "MacroTypeVariation", "AliasVariation", "NonCopyUnionStyle", "Formatter", "FieldVisibilityKind",
+              "RustTarget", "RustEdition", "Abi"}
+
+
+def gen_builder_rs(fields):
+    """Rust source with `apply(b, method, arg) -> Result<Builder, String>`: one arm per Builder method whose
+    parameter shape is understood; returns (source, [(method, shape)], [(method, reason)])"""
+    arms, done, skipped = [], [], []
+    seen = set()
+    for f in fields:
+        for m in f["methods"]:
+            n = m["name"]
+            if n in seen:
+                continue
+            seen.add(n)
+            ps = [(p[0].replace("mut ", "").strip(), p[1].replace(" ", "")) for p in m["params"]]
+            gen = m["generics"].replace(" ", "")
+            gnames = set(re.findall(r"(?:^<|,)([A-Z]\w*)(?::|,|$)", gen)) | set(re.findall(r"\b([A-Z])\b", gen))
+
+            def conv(ty, expr):
+                if ty == "bool":
+                    return '%s == "1"' % expr
+                if ty in gnames:
+                    return "%s.to_string()" % expr
+                if ty in ("String", "&str"):
+                    return "%s.to_string()" % expr if ty == "String" else expr
+                if ty in ENUM_PARSE:
+                    if ty == "EnumVariation":
+                        return "parse_enum_variation(%s)?" % expr
+                    return '%s.parse::<bindgen::%s>().map_err(|e| format!("{e:?}"))?' % (expr, ty)
+                if ty == "Option<PathBuf>":
+                    return "Some(std::path::PathBuf::from(%s))" % expr
+                if ty == "CodegenConfig":
+                    return 'bindgen::CodegenConfig::from_bits_truncate(%s.parse::<u32>().map_err(|e| e.to_string())?)' % expr
+                if ty == "usize":
+                    return "%s.parse::<usize>().map_err(|e| e.to_string())?" % expr
+                return None
+            if n in ("parse_callbacks", "clang_args", "header_contents") or "Iterator" in gen:
+                skipped.append((n, "not driven generically"))
+                continue
+            if len(ps) == 0:
+                arms.append('        "%s" => b.%s(),' % (n, n))
+                done.append((n, "unit"))
+            elif len(ps) == 1:
+                c = conv(ps[0][1], "arg")
+                if c is None:
+                    skipped.append((n, "param type %s" % ps[0][1]))
+                    continue
+                arms.append('        "%s" => b.%s(%s),' % (n, n, c))
+                done.append((n, ps[0][1] if ps[0][1] not in gnames else "str"))
+            else:
+                cs = [conv(p[1], "parts[%d]" % i) for i, p in enumerate(ps)]
+                if any(c is None for c in cs):
+                    skipped.append((n, "param types %s" % [p[1] for p in ps]))
+                    continue
+                arms.append('        "%s" => { let parts: Vec<&str> = arg.split(\'\\u{1f}\').collect(); if parts.len() != %d { return Err("arity".into()); } b.%s(%s) }' % (n, len(ps), n, ", ".join(cs)))
+                done.append((n, "+".join(p[1] if p[1] not in gnames else "str" for p in ps)))
+    src = """// generated by translator/tr_c13.py from /repo/bindgen/options/mod.rs -- do not edit
+use bindgen::Builder;
+
+fn parse_enum_variation(s: &str) -> Result<bindgen::EnumVariation, String> {
+    // every constructible value, including the ones FromStr cannot produce
+    Ok(match s {
+        "bitfield_global" => bindgen::EnumVariation::NewType { is_bitfield: true, is_global: true },
+        other => other.parse::<bindgen::EnumVariation>().map_err(|e| e.to_string())?,
+    })
+}
+
+#[allow(deprecated, clippy::all)]
+pub fn apply(b: Builder, method: &str, arg: &str) -> Result<Builder, String> {
+    Ok(match method {
+%s
+        other => return Err(format!("unknown method {other}")),
+    })
+}
+
+pub const METHODS: &[(&str, &str)] = &[
+%s
+];
+""" % ("\n".join(arms), "\n".join('    ("%s", "%s"),' % d for d in done))
+    return src, done, skipped
